@@ -32,6 +32,9 @@ type LObs struct {
 	Name    string `json:"name"`
 	Args    string `json:"arguments"`
 	RawText string `json:"rawtext"`
+	Msg2    bool   `json:"msg2"` // all_urns variant: a second message went to the twitter URN (no template translation there)
+	Text2   string `json:"text2"`
+	Locale2 string `json:"locale2"`
 }
 
 type LLine struct {
@@ -86,6 +89,9 @@ func c18Loc(args []string) error {
 			return err
 		}
 		src := fmt.Sprintf("%s#%d", *in, i)
+		// every 7th case: the message goes to all URNs of the contact and names a channel template that only the first
+		// URN's channel has a translation of (in eng-US)
+		allURNs := i%7 == 0
 		resetGenerators(1)
 		act := M{"uuid": actionUUID(1, 1, 1), "type": "send_msg", "text": "", "attachments": []string{}, "quick_replies": []string{}}
 		if lc.Native["text"] {
@@ -96,6 +102,11 @@ func c18Loc(args []string) error {
 		}
 		if lc.Native["quick_replies"] {
 			act["quick_replies"] = []string{plant("quick_replies", "native")}
+		}
+		if allURNs {
+			act["all_urns"] = true
+			act["template"] = M{"uuid": "5722e1fd-fe32-4e74-ac78-3cf41a6adb7e", "name": "affirmation"}
+			act["template_variables"] = []string{}
 		}
 		loc := M{}
 		for _, lang := range []string{"eng", "fra", "spa"} {
@@ -131,12 +142,19 @@ func c18Loc(args []string) error {
 			"categories": []M{{"uuid": catUUID(1, 1, 1), "name": "Cat", "exit_uuid": exitUUID(1, 1, 1)}}}
 		node := M{"uuid": nodeUUID(1, 1), "actions": []M{act}, "router": router, "exits": exitsFor(1, 1, 0)}
 		flow := M{"uuid": flowUUID(1), "name": "Flow 1", "spec_version": "13.6.0", "language": lc.Base, "type": "messaging", "nodes": []M{node}, "localization": loc}
-		sa, err := loadAssets(mustJSON(M{"flows": []M{flow}, "channels": []M{{"uuid": chanA, "name": "A", "address": "+17036975131", "schemes": []string{"tel"}, "roles": []string{"send", "receive"}, "country": "US"}}}))
+		chanB := "57f1078f-88aa-46f4-a59a-948a5739c0bb"
+		sa, err := loadAssets(mustJSON(M{"flows": []M{flow}, "channels": []M{{"uuid": chanA, "name": "A", "address": "+17036975131", "schemes": []string{"tel"}, "roles": []string{"send", "receive"}, "country": "US"},
+			{"uuid": chanB, "name": "B", "address": "nyaruka", "schemes": []string{"twitterid"}, "roles": []string{"send", "receive"}}},
+			"templates": []M{{"uuid": "5722e1fd-fe32-4e74-ac78-3cf41a6adb7e", "name": "affirmation", "translations": []M{{"channel": M{"uuid": chanA, "name": "A"}, "locale": "eng-US",
+				"components": []M{{"name": "body", "type": "body/text", "content": "Template text", "variables": M{}}}, "variables": []M{}}}}}}))
 		if err != nil {
 			errs = append(errs, src+": "+err.Error())
 			return nil
 		}
 		c := contactJSON()
+		if allURNs {
+			c["urns"] = []string{"tel:+12065551212", "twitterid:54784326227#nyaruka"}
+		}
 		delete(c, "language")
 		if lc.Cl != "" {
 			c["language"] = lc.Cl
@@ -159,6 +177,24 @@ func c18Loc(args []string) error {
 			line.Allowed = []string{}
 		}
 		for _, e := range sp.Events() {
+			if e.Type() == "msg_created" && allURNs {
+				var m2 struct {
+					Msg struct {
+						URN    string `json:"urn"`
+						Text   string `json:"text"`
+						Locale string `json:"locale"`
+					} `json:"msg"`
+				}
+				json.Unmarshal(mustJSON(e), &m2)
+				if strings.HasPrefix(m2.Msg.URN, "twitterid:") {
+					line.Obs.Msg2 = true
+					line.Obs.Text2 = decode("text", m2.Msg.Text)
+					line.Obs.Locale2 = strings.SplitN(m2.Msg.Locale, "-", 2)[0]
+					continue
+				}
+				// (the message to the tel URN is built from the template: outside the statement)
+				continue
+			}
 			if e.Type() == "msg_created" && !line.Obs.Msg {
 				var m struct {
 					Msg struct {
